@@ -133,7 +133,10 @@ func Force(v wire.Value) (out ref.Val, err error) {
 		firstItem := true
 		err = m.ForEach(func(it wire.MapItem) error {
 			if firstItem && m.Size() <= 64 && NestedWalk != nil && NestedWalk() {
-				m.ForEach(func(wire.MapItem) error { return nil })
+				// (an error met by the inner walk is an error of forcing this value)
+				if err := m.ForEach(func(wire.MapItem) error { return nil }); err != nil {
+					return err
+				}
 			}
 			firstItem = false
 			k, err := Force(it.Key)
@@ -164,7 +167,9 @@ func Force(v wire.Value) (out ref.Val, err error) {
 			if first && l.Size() <= 64 && NestedWalk != nil && NestedWalk() {
 				// a second walk of the same container from inside the first (what a pairwise
 				// comparison does); it must not disturb the walk it interrupts
-				l.ForEach(func(wire.Value) error { return nil })
+				if err := l.ForEach(func(wire.Value) error { return nil }); err != nil {
+					return err
+				}
 			}
 			first = false
 			x, err := Force(it)
